@@ -3,6 +3,7 @@ C15 — Operation and element identifiers are unique and respect causality.
 Property theorems only; helper lemmas live in Orda/Proofs.
 -/
 import Orda.Proofs.HashCmp
+import Orda.Proofs.SeqSnap
 namespace Orda.Props.C15
 open Orda
 
@@ -45,6 +46,32 @@ theorem cmp_as_written_wraps : ∃ a b c : Ts, a.cmp64 b = .lt ∧ b.cmp64 c = .
 theorem later_clock_is_newer (a b : Ts) (he : a.era = b.era) (hl : a.lamport < b.lamport) :
     a.cmp b = .lt :=
   cmp_lt_of_lamport_lt a b he hl
+
+/-- each client numbers its queued operations base+1, base+2, … without gaps (base = 0 for a fresh
+    datatype, the source's count for a restored one); kept by calls (failing ones included),
+    transactions (rolled back ones included) and remote deliveries -/
+theorem seq_gapless_new (typ : DtType) (cuid : String) (create : Bool) : (Replica.new typ cuid create).SeqInv 0 :=
+  seqInv_new typ cuid create
+theorem seq_gapless_call (base : Nat) (r : Replica) (c : Call) (h : r.SeqInv base)
+    (hp : (r.call c).2.isPanic = false) : (r.call c).1.SeqInv base := seqInv_call base r c h hp
+theorem seq_gapless_tx (base : Nat) (r : Replica) (tag : String) (calls : List Call) (stop fail : Bool)
+    (h : r.SeqInv base) (hr : r.RbInv) (hp : (r.txCalls tag calls stop fail).2.2.isPanic = false) :
+    (r.txCalls tag calls stop fail).1.SeqInv base := seqInv_txCalls base r tag calls stop fail h hr hp
+theorem seq_gapless_receive (base : Nat) (r : Replica) (ops : List Op) (h : r.SeqInv base) :
+    (r.receive ops).1.SeqInv base := seqInv_receive base r ops h
+
+/-- the clock never goes back, is at least the clock of every operation that was executed, and every
+    operation a call emits is stamped strictly later than the clock before the call -/
+theorem clock_monotone (r : Replica) (c : Call) (ops : List Op) :
+    r.opId.lamport ≤ (r.call c).1.opId.lamport ∧ r.opId.lamport ≤ (r.receive ops).1.opId.lamport :=
+  ⟨lamport_mono_call r c, lamport_mono_receive r ops⟩
+theorem clock_covers_applied (r : Replica) (ops : List Op) (h : (r.receive ops).2 = .ok ())
+    (hdom : ∀ o ∈ ops, ¬ o.executed → ∃ o' ∈ ops, o'.executed ∧ o.id.lamport ≤ o'.id.lamport) :
+    ∀ o ∈ ops, o.id.lamport ≤ (r.receive ops).1.opId.lamport :=
+  receive_lamport_ge_of_headers_dominated r ops h hdom
+theorem local_after_applied (r : Replica) (c : Call) :
+    ∀ o ∈ (r.call c).1.buffer.drop r.buffer.length, r.opId.lamport < o.id.lamport :=
+  call_emits_newer r c
 
 -- non-vacuity of the guard
 example : NoWrap ⟨0, 5, "a", 0⟩ ⟨0, 9, "b", 3⟩ := by unfold NoWrap; decide
